@@ -73,11 +73,14 @@ Proof.
 Qed.
 
 (* ---- generic_composition_inplace with explore = true (FunctionComposition): nothing is tested, removed or merged ---- *)
+(* new nodes get the dummy arena index 1: any non-zero value, because index 0 is the root's index in every AffTree
+   and is_edge_feasible treats edges below index 0 specially (CPrune.cprune: top := Nat.eqb i 0); the node that
+   receives the root of L keeps its index i *)
 Fixpoint cgraft (s : schema) (tf : aff) (L : ptree) (st : nstate) (i : nat) {struct L} : ctree :=
   match L with
   | U => CU
   | T f => CN i true (s_term s f tf) st CU CU
-  | D p (l0 :: l1 :: nil) => CN i false (s_dec s p tf) st (cgraft s tf l0 Indet 0) (cgraft s tf l1 Indet 0)
+  | D p (l0 :: l1 :: nil) => CN i false (s_dec s p tf) st (cgraft s tf l0 Indet 1) (cgraft s tf l1 Indet 1)
   | D p _ => CU   (* not a binary decision: outside the model *)
   end.
 Fixpoint clift (s : schema) (L : ptree) (t : ctree) : ctree :=
@@ -101,7 +104,7 @@ Proof.
     apply pwf_D in HL as [Hp [Hi [Ho [_ [P0 P1]]]]].
     apply Forall_cons_iff in IH as [IH0 IH]. apply Forall_cons_iff in IH as [IH1 _].
     destruct (Hdec p Hp Hi Ho) as [A [B C]].
-    destruct (IH0 Indet 0%nat P0) as [W0 X0]. destruct (IH1 Indet 0%nat P1) as [W1 X1].
+    destruct (IH0 Indet 1%nat P0) as [W0 X0]. destruct (IH1 Indet 1%nat P1) as [W1 X1].
     cbn [cgraft]. split; [ | reflexivity]. constructor; auto. rewrite X0, X1. exact He.
 Qed.
 Theorem clift_cwf s L kk mL n m m' :
